@@ -127,12 +127,18 @@ func openModelWith(scriptFile, bin string) (*modelSession, error) {
 	if i := strings.LastIndex(script, "(check-sat)"); i >= 0 {
 		script = script[:i]
 	}
-	cmd := exec.Command(bin, "-in", "-smt2", "-t:20000")
+	cmd := exec.Command(bin, "-in", "-smt2", "-t:20000", "-memory:4000")
 	in, _ := cmd.StdinPipe()
 	out, _ := cmd.StdoutPipe()
 	if err := cmd.Start(); err != nil {
 		return nil, err
 	}
+	// watchdog: model extraction is a conversation over pipes; whatever goes wrong in it (a reply in
+	// an unexpected shape, a solver that never answers) must end, not hang the check
+	go func(p *os.Process) {
+		time.Sleep(90 * time.Second)
+		p.Kill()
+	}(cmd.Process)
 	m := &modelSession{cmd: cmd, in: in, out: bufio.NewReaderSize(out, 1<<16), script: script}
 	io.WriteString(in, script+"\n(check-sat)\n")
 	for {
